@@ -9,6 +9,21 @@ ALL = ["C%02d" % i for i in range(1, 29)]
 
 # pid -> (engine, category, text, note, technique, design_ref)
 CHECKS = {
+    "C03": dict(
+        engine="Defer",
+        category="model_checking",
+        text="Defer.tla's state graph enumerates every skeleton program in the bound (nested "
+             "blocks / labeled blocks / while loops / if-blocks, defers, break / continue / return / "
+             ".try with and without labels, conditional on the loop iteration); its reference "
+             "semantics (pending-defer list per open block, run in reverse when the block is left) "
+             "gives the prescribed output and is itself checked (run-at-most-reached, LIFO, "
+             "top-level defers exactly once). Every skeleton is rendered to Capy, compiled by the "
+             "real pipeline, executed, and its stdout compared with the prescription.",
+        note="quick: <=7 tokens, depth <=3, <=2 defers per block, <=2 jumps (33k skeletons); "
+             "thorough: <=8 tokens, depth <=4, <=3 defers per block. Loops run two iterations. "
+             "Trusted: TLC, the 60-line renderer in tools/props/c03.py, gcc as linker.",
+        technique="TLA+ reference semantics (TLC enumeration) + spec-to-implementation replay",
+        ref="DESIGN.md section 4 C03"),
     "C22": dict(
         engine="Lexer",
         category="model_checking",
